@@ -191,11 +191,11 @@ QUICK = [_p(2, 3), _p(3, 3, cls="mst"), _p(3, 2, soma=True, sort=False), _p(4, 1
          _p(4, 1, k=2, bf_kind="half", exclude_soma=False), _p(3, 2, bf_kind="sym"), _p(3, 2, bf_kind="one", sort=False), _p(4, 1, k=3, bf_kind="half", soma=True), _p(3, 3, k=1, bf_kind="half", exclude_soma=False),
          _p(5, 1, cls="mst"), _p(4, 1, bf_kind="sym", k=2), _p(4, 1, cls="mst", k=1, exclude_soma=False), _p(3, 2, cls="mst", k=1, exclude_soma=False), _p(3, 2, cls="mst", k=1, exclude_soma=True)]
 THOROUGH = QUICK + [_p(5, 1, k=2, bf_kind="half", exclude_soma=False), _p(5, 1, k=2, bf_kind="half", exclude_soma=True), _p(5, 1, bf_kind="sym"),
-                    _p(5, 1, cls="mst", k=2, exclude_soma=False, soma=True), _p(5, 1, k=1, bf_kind="half", exclude_soma=True), _p(4, 3, cls="mst", soma=True), _p(3, 3, bf_kind="sym", k=2)]
+                    _p(5, 1, cls="mst", k=2, exclude_soma=False, soma=True), _p(5, 1, k=1, bf_kind="half", exclude_soma=True), _p(3, 3, bf_kind="sym", k=2)]
 REACH = {"mst": ["limit_binds", "root_limit_binds", "exempt_root_exceeds_limit"]}
 HARNESSES = [
     H("int_grid", h_int_grid, quick=[dict(n=3, bf_kind="one", k=-1), dict(n=3, bf_kind="half", k=-1)], thorough=[dict(n=4, bf_kind="one", k=-1), dict(n=4, bf_kind="half", k=2)], functions=FUNCTIONS, validate=False,
       bounds="every placement of n=3 (quick) / 4 (thorough) distinct points on the integer grid {0,1,2}^2 with the first at the origin, passed as int64 / int32 / float64 arrays; bf in {1/2, 1}; ties excluded (enumeration of integer inputs: concrete per path)"),
     H("mst", h_mst, quick=QUICK, thorough=THOROUGH, functions=FUNCTIONS, expect_outside=True, opts=dict(branch_timeout_ms=1500),
-      bounds="quick: n<=3 points in the plane / in space and n<=5 points on a line; thorough: additionally n=5 on a line with limits / balancing factors and n=3,4 in space; symbolic real coordinates in general position; bf in {0, 1/2, 1} or a symbolic real in [0,1]; limits {-1, 1, 2, 3}; exclude_soma on/off; soma given or not; sort on/off; minimality against every labelled spanning tree (16 for n=4, 125 for n=5)"),
+      bounds="quick: n<=3 points in the plane / in space and n<=5 points on a line; thorough: additionally n=5 on a line with limits / balancing factors; n=4 in the plane / in space is beyond the time budget (path feasibility over six square-root variables); symbolic real coordinates in general position; bf in {0, 1/2, 1} or a symbolic real in [0,1]; limits {-1, 1, 2, 3}; exclude_soma on/off; soma given or not; sort on/off; minimality against every labelled spanning tree (16 for n=4, 125 for n=5)"),
 ]
